@@ -127,6 +127,9 @@ class Lstm:
     def get_state(self, op: Operation, batch: int = 0) -> Operation:
         """Setup the correct read offset for reading the state from
         a variable tensor state"""
+        if op.ifm.ops and op.ifm.ops[0].type == Op.SplitSliceRead:
+            # One batch of the initial state: the read offset comes from the SplitSliceRead when it is moved into this op
+            return op
         if not self.time_major and self.n_batch > 1:
             op.read_offsets[0] = Shape4D.from_list([batch, 0], 0)
             op.read_shapes[0] = Shape4D(op.ifm.shape)
